@@ -433,8 +433,8 @@ class Dict(dict, base.Symbolic, pg_typing.CustomTyping):
 
   def seal(self, sealed: bool = True) -> 'Dict':
     """Seals or unseals current object from further modification."""
-    if self.is_sealed == sealed:
-      return self
+    # NOTE: the flag of a descendant may differ from the flag of this node (it
+    # can be set at the descendant), so the descendants are always visited.
     for v in self.sym_values():
       if isinstance(v, base.Symbolic):
         v.seal(sealed)
